@@ -91,6 +91,15 @@ static Json::Value genC09(Rng& rng) {
     c["pids"] = pids;
     kids.push_back(c);
   }
+  // one sibling whose ranking statistic cannot be read: it is ranked as 0
+  // ("reported as unavailable"), never by some other statistic
+  if (rng.chance(0.2) && !kids.empty()) {
+    Json::Value& k = kids[rng.below(kids.size())];
+    if (plugin == "kill_by_pressure")
+      k["absent"].append(rng.chance(0.5) ? "io.pressure" : "memory.pressure");
+    else if (plugin == "kill_by_swap_usage")
+      k["absent"].append("memory.swap.current");
+  }
   parent["cur"] = (Json::Int64)std::min<int64_t>(sum + (1 << 20), 1LL << 62);
   if (rng.chance(0.4))
     parent["low"] = (Json::Int64)c09Size(rng, big);
